@@ -274,6 +274,12 @@ func (le *logicEnv) eval(fn *Func, e ast.Expr, subst map[types.Object]ast.Expr) 
 			return v
 		case token.ADD:
 			return le.eval(fn, x.X, subst)
+		case token.XOR:
+			if le.bitops {
+				v := le.eval(fn, x.X, subst)
+				v.n = ^v.n
+				return v
+			}
 		}
 	case *ast.BinaryExpr:
 		l := le.eval(fn, x.X, subst)
@@ -798,7 +804,10 @@ func (p *Program) TabulateFunc(fn *Func, domains map[string][]int64, cb func(env
 				break
 			}
 			if as, ok := cur.AST.(*ast.AssignStmt); ok {
-				if len(as.Lhs) != len(as.Rhs) || (as.Tok != token.ASSIGN && as.Tok != token.DEFINE) {
+				opOf := map[token.Token]token.Token{token.ADD_ASSIGN: token.ADD, token.SUB_ASSIGN: token.SUB, token.AND_ASSIGN: token.AND,
+					token.OR_ASSIGN: token.OR, token.XOR_ASSIGN: token.XOR, token.SHL_ASSIGN: token.SHL, token.SHR_ASSIGN: token.SHR, token.AND_NOT_ASSIGN: token.AND_NOT}
+				binop, isOp := opOf[as.Tok]
+				if len(as.Lhs) != len(as.Rhs) || (as.Tok != token.ASSIGN && as.Tok != token.DEFINE && !isOp) {
 					return false, "assignment not understood: " + p.Src(as)
 				}
 				for i, l := range as.Lhs {
@@ -806,7 +815,12 @@ func (p *Program) TabulateFunc(fn *Func, domains map[string][]int64, cb func(env
 					if !ok {
 						return false, "assignment to a non-variable: " + p.Src(as)
 					}
-					v := le.eval(fn, as.Rhs[i], subst)
+					rhs := as.Rhs[i]
+					if isOp {
+						// x op= e is x = x op e
+						rhs = &ast.BinaryExpr{X: id, Op: binop, Y: &ast.ParenExpr{X: as.Rhs[i]}}
+					}
+					v := le.eval(fn, rhs, subst)
 					if !v.ok {
 						return false, "value not evaluable: " + p.Src(as.Rhs[i])
 					}
